@@ -183,6 +183,16 @@ class Ctx:
                 else:
                     self.discharged += 1
                     self.axioms[t] = a
+        # thorough tier: the compiled proofs of the property's modules are re-checked by leanchecker (independent of the elaborator)
+        if self.tier != "quick" and ok_thms:
+            rechecked = {}
+            for mod in sorted({m for m, _ in ok_thms}):
+                with vlib.LeanLock():
+                    p = subprocess.run(["lake", "env", "leanchecker", mod], cwd=vlib.LEAN, stdout=subprocess.PIPE, stderr=subprocess.STDOUT)
+                rechecked[mod] = (p.returncode == 0)
+                if p.returncode != 0:
+                    self.p_fail.append(dict(what="leanchecker rejects module " + mod, detail=p.stdout.decode(errors="replace")[-800:], modules=[mod]))
+            self.extra_cov["leanchecker"] = rechecked
 
     def drive(self, v="default"):
         return self.drives[v]
